@@ -122,7 +122,12 @@ func runBcSchedule(ops []bcOp, prefix []int) *bcRun {
 				b.Publish(fmt.Sprint(o.Key), 100+i)
 				d.outcome = "returned"
 			case "F":
-				b.Free(fmt.Sprint(o.Key), errors.New("freed"))
+				// (the cause is optional: every other Free passes none)
+				if i%2 == 0 {
+					b.Free(fmt.Sprint(o.Key), nil)
+				} else {
+					b.Free(fmt.Sprint(o.Key), errors.New("freed"))
+				}
 				d.outcome = "returned"
 			case "C":
 				b.Close(errors.New("closed-by-test"))
